@@ -99,10 +99,13 @@ def validate_args(func):
     def validate(*args, **kw):
         sig = inspect.signature(func)
         bound = sig.bind(*args, **kw)
-        # 1. Convert all input parameters to Excel Types.
-        for pname, value in list(bound.arguments.items()):
+        # 1. Convert all input parameters to Excel Types. (An argument that
+        #    is an error value is the result - the leftmost one -, whatever
+        #    converting the arguments before it would have given.)
+        for value in bound.arguments.values():
             if isinstance(value, xlerrors.ExcelError):
                 return value
+        for pname, value in list(bound.arguments.items()):
             try:
                 bound.arguments[pname] = _validate(
                     sig.parameters[pname].annotation, value, pname)
